@@ -21,9 +21,10 @@ func propMachine(t *rapid.T, c *cx) {
 	lg := rapid.IntRange(0, rep.Scale(6, 8)).Draw(t, "lg")
 	size := 1 << lg
 	rho0 := rapid.SampledFrom([]int{1, 1, 1, 2, 4}).Draw(t, "rho0")
-	s := drawCosetShift(t, c, 8*size)
+	pal := shiftPalette(c, 8*size)
+	s := rapid.SampledFrom(pal).Draw(t, "cosetshift")
 	co, coClass := drawElems(t, c, size, "coef")
-	sh := &shared{c: c, p: ref.NewPoly(c.F, co), size: size, s: s, tabs: map[int]*tables{}}
+	sh := &shared{c: c, p: ref.NewPoly(c.F, co), size: size, s: s, pal: pal, tabs: map[int]*tables{}}
 	f := rapid.SampledFrom(allForms).Draw(t, "form")
 	var classes0 []string
 	m := newModel(sh, f, size*rho0)
